@@ -171,6 +171,17 @@ CHECKS['C20'] = dict(
          'the exact product rounded once (incl. subnormal/overflow results); ideal_* variants under any context where the rounded result is finite.',
     note='Trusted: vlib/oracle_round.py, Fraction arithmetic. Exponent windows are listed in the module (WINDOWS) and in the evidence rule.')
 
+CHECKS['C11'] = dict(
+    category='translation_validation', design_ref='DESIGN.md §3 C11, §2.8',
+    technique='format-tracking program generation x 12 compiler option sets: emitted C++ built with g++ and compared bit for bit with the interpreter',
+    text='Programs from a format-tracking generator (FP32/FP64 under the four hardware modes, SINT/UINT 8-64, INTEGER, REAL sections fitting a machine type; loops, branches, '
+         'tuples, nested and aliased lists, list-mutating helper functions compiled as modules) are compiled under optimize x unbox{NEVER,ALLOW,STRICT} x arrays (+unsafe_cast_int), '
+         'assembled ~100 kernels per translation unit with a generated driver that builds arguments at the storage types signature() reports, sets fesetround, and prints raw bits; '
+         'g++ -O0 -frounding-math -ffp-contract=off; outputs are compared bit for bit (NaN for NaN) with Function.__call__. g++ rejecting accepted output or a run-time abort is a '
+         'violation of its own. Four backend defects whose repairs would require editing text-pinning unit tests are open known findings, excluded by construction and reported by witness replays.',
+    note='Trusted: g++ 12 at -O0 -frounding-math -ffp-contract=off, glibc sqrt/fma/nearbyint correctly rounded, the interpreter as reference (checked by C04). Exit 2 if g++ is missing. '
+         'disagreements_checked counts mismatches re-examined under the RTN exact-zero open choice.')
+
 NOT_YET = {}
 
 
